@@ -28,6 +28,7 @@ class TraceCtx(B.Ctx):
         self.inv = dict(self.fwd)
         self.tree = None
         self.twin = None
+        self.unit = None
 
 
 class NonIntegral(Exception):
